@@ -120,6 +120,23 @@ Theorem C20_signal_progress_partial : forall st s,
               served st' = Some None /\ cancelled st' = true.
 Proof. exact signal_completes. Qed.
 
+(* liveness proper.  Leave aside the two labels that can repeat for ever without changing anything
+   that matters here (a further signal delivered to the full channel, a task looking at the
+   cancellation again).  Then (1) every execution is finite: at most 3 steps per task, the signal
+   task's select and its calls in source order, the two announcements -- serve_measure --, whatever
+   the tasks do; and (2) once the context is cancelled (a signal was acted upon, or a task failed)
+   the system is never stuck before Serve has returned: a task that has not returned can return, the
+   signal task can finish, and then eg.Wait() returns.  Together: after a signal or a fatal error
+   Serve returns, provided every task eventually returns once it can (the tasks' own guarantee:
+   C08 / C10 for the advertisers and monitors). *)
+Theorem C20_serve_bounded : forall tr st st',
+  all_quiet tr = true -> run st tr = Some st' -> length tr + serve_measure st' <= serve_measure st.
+Proof. exact quiet_run_bounded. Qed.
+
+Theorem C20_serve_progress : forall st, cancelled st = true -> served st = None ->
+  exists l st', quiet_label l = true /\ step st l = Some st'.
+Proof. exact serve_progress. Qed.
+
 Theorem C20_task_can_return : forall st i t r,
   nth_error (tasks st) i = Some t -> t_status t = Running -> exists st', step st (LRet i r) = Some st'.
 Proof. exact task_can_return. Qed.
@@ -164,4 +181,6 @@ Print Assumptions C20_signals.
 Print Assumptions C20_ready.
 Print Assumptions C20_signal_progress_partial.
 Print Assumptions C20_task_can_return.
+Print Assumptions C20_serve_bounded.
+Print Assumptions C20_serve_progress.
 Print Assumptions C20_http_attempts.
